@@ -433,10 +433,10 @@ def crafted(rng):
 
     names = ["cartesianX", "cartesianY", "cartesianZ", "intensity", "colorRed", "colorGreen", "colorBlue", "rowIndex", "columnIndex"]
     # a one-bit record next to k zero-width records: one input byte makes 8 * (k + 1) queued values
-    for k, nbytes in ((0, 2000), (3, 2000), (8, 4000)):
+    for k, nbytes in ((0, 2000), (3, 2000), (8, 4000), (3, 100), (8, 40)):
         proto = '<cartesianX type="Integer" minimum="0" maximum="1"/>' + "".join('<%s type="Integer" minimum="7" maximum="7"/>' % names[1 + i] for i in range(k))
         streams = [rng.bytes(nbytes)] + [b""] * k
-        out.append(("crafted-one-bit-plus-%d-zero-width" % k, build(pc_xml(8 * nbytes, proto), cv([data_packet(streams)])),
+        out.append(("crafted-one-bit-plus-%d-zero-width%s" % (k, "" if nbytes >= 2000 else "-small"), build(pc_xml(8 * nbytes, proto), cv([data_packet(streams)])),
                     "one-bit record + %d zero-width records, %d stream bytes" % (k, nbytes)))
     # the same with 100 zero-width extension records: about 12 KB of file, 32000 * 101 queued values
     k, nbytes = 100, 4000
@@ -665,6 +665,7 @@ def comparable_free(line):
 
 # ---------------------------------------------------------------- the exploration shared by C08 and C09
 
+MODEL_MAX_POINTS = 2500
 MODEL_MAX_BYTES = 12 * 1024      # the list-based extracted model is quadratic in the number of points; larger files are sampled
 
 
@@ -683,7 +684,11 @@ def explore(rep, tier, rng, replay, profiles=("debug", "release")):
     tots = {p: [parse_tot(o) for o in out[p]] for p in profiles}
     # the model: every small file, a sample of the larger ones
     r2 = core.Rng(rng.next())
-    midx = [i for i, m in enumerate(muts) if len(m["phys"]) <= MODEL_MAX_BYTES or (not tots[first][i]["crash"] and r2.below(60) == 0) or replay]
+    def points(t):
+        return sum(int(x) for x in re.findall(r"raw:n=(\d+)", t["raw"] or ""))
+    midx = [i for i, m in enumerate(muts)
+            if replay or (points(tots[first][i]) <= MODEL_MAX_POINTS and
+                          (len(m["phys"]) <= MODEL_MAX_BYTES or (not tots[first][i]["crash"] and r2.below(60) == 0)))]
     mlines = [model_line(tots[first][i], devtok(muts[i]["phys"])) for i in midx]
     mout = core.run_cases(core.DRIVER, mlines)
     model = [None] * len(muts)
